@@ -82,7 +82,15 @@ def gen_list(rnd, n):
         t = {'amount': gen_amount(rnd), 'tags': gen_tags(rnd), 'merchant': rnd.choice(merch), 'category': cat,
              'subcategory': sub, 'date': datetime(y, mo, rnd.randint(1, 28)), 'description': f'D{i}',
              'raw_description': f'RAW {i % 7}', 'source': rnd.choice(['Amex', 'Chase'])}
-        if rnd.random() < .1:
+        if rnd.random() < .08:
+            # the caller cleared (or never set) the transaction's own tags; the rule that matched it lists special tags in match_info: the BUCKET follows the
+            # transaction's tags and its sign, nothing else
+            t['match_info'] = {'pattern': 'p', 'source': 'user', 'tags': [rnd.choice(['income', 'Transfer', 'investment'])], 'tag_sources': {}}
+            if rnd.random() < .5:
+                del t['tags']
+            else:
+                t['tags'] = []
+        elif rnd.random() < .1:
             del t['tags']
         elif rnd.random() < .4:
             # as the statement readers build it: the transaction's tag list IS the list inside its match_info (one object, two names)
